@@ -92,6 +92,23 @@ Theorem C12_range_open_top :
     = filter (region_filter [] (List.length before) (S (List.length after)) L) (report (before ++ ki :: after)).
 Proof. exact (fun L c1 H => range_open_top L c1 H). Qed.
 
+(* falco-ignore-start before a statement of a block (e.g. inside a subroutine body) and no end.  Inside the block exactly that
+   statement and the ones after it are covered; what the statements before it have queued - the unused/variable diagnostics
+   of variables declared BEFORE the start comment, reported when the subroutine ends - passes unfiltered (repaired: the
+   queue is reported without consulting the ignore state again, and whether a declaration is ignored is decided when it is
+   entered); when the block is left the two runs differ by the open range only (RS: same next-line / this-line sets and
+   stack, range set = the old one plus L), which then runs on as in C12_range_open_top.  Any entry state, any context. *)
+Theorem C12_range_open_in_block :
+  forall L c1, parse_ignore_comment c1 = Some (Start, L) ->
+  forall m pre before ki after k1 p s qv qp,
+    range_free_meta m = true -> forallb range_free before = true ->
+    range_free ki = true -> forallb range_free after = true ->
+    let FR := region_filter p (List.length before) (S (List.length after)) L in
+    let r := run (Node WBlock m false pre [] [] (before ++ ki :: after)) p s qv qp in
+    let r' := run (Node WBlock m false pre [] [] (before ++ add_leading k1 c1 ki :: after)) p s (filter FR qv) (filter FR qp) in
+    RS L (r_st r) (r_st r') /\ r_qv r' = filter FR (r_qv r) /\ r_qp r' = filter FR (r_qp r) /\ r_out r' = filter FR (r_out r).
+Proof. exact (fun L c1 H => range_open_in_block L c1 H). Qed.
+
 (* the engine of the three range theorems, in ANY context: wherever the walk stands (state s,
    queues qv qp, owner path b, index i0), provided the range set does not already ignore the
    rules of the pair ([rg_clear]), e.g. after an earlier pair has been closed *)
@@ -207,6 +224,11 @@ Theorem C12_unrepaired_open_range :
   map snd (report_vcl p_open_range) = map bs ["scope"; "r0"; "unused/declaration"]%string.
 Proof. exact unrepaired_open_range. Qed.
 
+Theorem C12_unrepaired_open_in_block :
+  map snd (report_vcl_unrepaired p_open_in_block) = map bs ["scope"; "r0"]%string /\
+  map snd (report_vcl p_open_in_block) = map bs ["scope"; "r0"; "unused/variable"; "unused/declaration"]%string.
+Proof. exact unrepaired_open_in_block. Qed.
+
 Print Assumptions C12_ignore_restores.
 Print Assumptions C12_ignore_exact_next_line.
 Print Assumptions C12_ignore_exact_this_line.
@@ -228,3 +250,5 @@ Print Assumptions C12_unrepaired_open_range.
 Print Assumptions C12_ignore_rules_accumulate.
 Print Assumptions C12_ignore_all_sticky.
 Print Assumptions C12_setup_statement_union.
+Print Assumptions C12_range_open_in_block.
+Print Assumptions C12_unrepaired_open_in_block.
